@@ -139,7 +139,7 @@ func c03Case(t *rm.Type, v *rm.Value) *ev.Violation {
 }
 
 func runC03(r *ev.Run, thorough bool) {
-	r.Rule = "(a) every BE/LE primitive pair x prefix type {u8,u16,u32,u64} x element type (10 scalar kinds / text) x value alphabet: LE bytes == BE bytes with each integer segment reversed, BE/LE bytes == reference, readers return the value; (b) every message type x V1 (asymmetric numbers, list lengths 1,2,3,255..257): each numeric wire segment named by the schema walk is in the protocol's byte order; distinct = (primitive,value) / (type,value) hashes; non-trivial = has at least one multi-byte number"
+	r.Rule = "(a) every BE/LE primitive pair x prefix type {u8,u16,u32,u64} x element type (10 scalar kinds / text) x value alphabet: LE bytes == BE bytes with each integer segment reversed, BE/LE bytes == reference, readers return the value; (b) every message type x V1 (asymmetric numbers, list lengths 1,2,3,255..257): each numeric wire segment named by the schema walk is in the protocol's byte order; (c) every checksummed frame x every key x Z/D/L with the checksum registry cleared: a checksum the library computed itself is not the algorithm's value byte-reversed; distinct = (primitive,value) / (type,value) hashes; non-trivial = has at least one multi-byte number"
 	r.Assume("integer segments of a primitive are delimited by its specification (prefix width, element width), not by observing the library")
 	l := ev.NewLocal()
 	for i := range prims {
@@ -178,6 +178,7 @@ func runC03(r *ev.Run, thorough bool) {
 			return true
 		})
 	})
+	checksumRegistryLeg(r, "C03")
 	r.Set("bound", map[string]any{"k_deviations": k12(thorough), "types": len(bind.Types)})
 }
 
